@@ -83,7 +83,7 @@ LeafVal(k) ==
     [] k = "ss" -> StrV("s") [] k = "sv" -> StrV("t") [] k = "se" -> StrV("")
     [] k = "bt" -> BoolV(TRUE) [] k = "bf" -> BoolV(FALSE) [] k = "bv" -> BoolV(TRUE)
     [] k = "pt" -> BoolV(TRUE) [] k = "pf" -> BoolV(FALSE) [] k = "pi" -> IntV(7)
-    [] k = "idx" -> IntV(7) [] k = "call" -> IntV(7) [] k = "paren" -> IntV(7) [] k = "fld" -> IntV(7)
+    [] k = "idx" -> IntV(7) [] k = "call" -> IntV(7) [] k = "paren" -> IntV(7) [] k = "fld" -> IntV(7) [] k = "cfld" -> IntV(7)
 IsProbe(k) == k \in {"pt", "pf", "pi"}
 
 \* tokens of a leaf; probes are calls p("<path>", value) whose first argument identifies the leaf
@@ -97,6 +97,7 @@ LeafToks(k, path) ==
     [] k = "pi" -> <<"pn", "(", "\"" \o path \o "\"", ",", "iv7", ")">>
     [] k = "idx" -> <<"isl", "[", "0", "]">> [] k = "call" -> <<"idf", "(", "iv7", ")">>
     [] k = "paren" -> <<"(", "iv7", ")">> [] k = "fld" -> <<"st.Seven">>
+    [] k = "cfld" -> <<".Seven">>            \* a field of the context: a sign right before it is a unary sign, not a number
 
 Prec(n) == CASE n.op = "leaf" -> 8 [] n.op \in {"neg", "not"} -> 7
              [] n.op \in {"*", "/", "%"} -> 6 [] n.op \in {"+", "-"} -> 5
